@@ -377,8 +377,8 @@ type Attr struct {
 
 type Item = map[string]*Attr
 
-func AttrS(s string) *Attr { return &Attr{S: &s} }
-func AttrN(n string) *Attr { return &Attr{N: &n} }
+func AttrS(s string) *Attr  { return &Attr{S: &s} }
+func AttrN(n string) *Attr  { return &Attr{N: &n} }
 func AttrBool(b bool) *Attr { return &Attr{BOOL: &b} }
 
 func (a *Attr) prim() string {
